@@ -114,6 +114,21 @@ def tags_of(st):
     return sorted(tlaparse.parse_value(raw))
 
 
+def last_record(raw):
+    """text of the last [...] record of a printed sequence of records"""
+    e = raw.rfind("]")
+    depth, i = 0, e
+    while i >= 0:
+        if raw[i] == "]":
+            depth += 1
+        elif raw[i] == "[":
+            depth -= 1
+            if depth == 0:
+                return raw[i:e + 1]
+        i -= 1
+    return raw
+
+
 def export_histories(dump, need, caps, seed):
     """the leaf (fin = TRUE) states of the dump = one shortest history per transition.  All of them were checked by
     TLC; the real code replays those whose last operation takes one of the `need` branches (up to caps[0]), a seeded
@@ -126,7 +141,8 @@ def export_histories(dump, need, caps, seed):
             continue
         leaves += 1
         tags = tags_of(st)
-        h = hashlib.sha1(("%d|" % seed + st["hist"]).encode()).hexdigest()
+        # identity of the transition = (pre-state, last operation): the same whichever shortest history TLC kept
+        h = hashlib.sha1(("%d|%s|%s" % (seed, st.get("prev", ""), last_record(st["hist"]))).encode()).hexdigest()
         (dev if "deviation" in tags else tagged if any(t in need for t in tags) else plain).append((h, st["hist"], tags))
     tagged.sort(); plain.sort(); dev.sort()
     sel = tagged[:caps[0]] + plain[:caps[1]] + dev[:caps[2]]
@@ -345,12 +361,6 @@ def build_exe():
     return vlib.build_harness("c20", "asan")
 
 
-def sanitizer_summary(stderr_text):
-    mm = re.findall(r"(ERROR: AddressSanitizer: [^\n]*|runtime error: [^\n]*)", stderr_text)
-    mm = [x for x in mm if "XPathFunctionTable" not in x]
-    return mm[0][:160] if mm else ""
-
-
 # ---------------------------------------------------------------------------------------- the check
 NEED_OK = "every listed branch of the transcribed algorithms occurs in the exported histories"
 
@@ -436,8 +446,9 @@ def run(res, tier, seed):
                 json.dumps({x: y for x, y in ex_[k].items() if x in ("res", "obs", "other", "tmp", "live", "bad", "otherLen", "otherTerm")}))
             msg = msg[:700]
             if ex_[k].get("e") == "Abort":
-                op = case["ops"][k - 2] if 0 <= k - 2 < len(case["ops"]) else {}
-                msg = "%s %s aborted the real code (%s)" % (case["c"], op, sanitizer_summary(stderr_text) or "status %s" % ex_[k].get("status"))
+                op = case["ops"][k - 2] if 0 <= k - 2 < len(case["ops"]) else {"op": "new" if k < 2 else "destroy"}
+                why = ex_[k].get("why") or "status %s" % ex_[k].get("status")
+                msg = "%s %s aborted the real code (%s)" % (case["c"], json.dumps(op, sort_keys=True), why)
             res.violation(msg, ex_[:k + 1])
     res.cov["traces_validated_against_impl"] = len(execs) - len(bad)
     # ---- coverage accounting
